@@ -13,11 +13,11 @@ theorem failIfNot20_noPanic (v : Nat) : (failIfNot20 v).isPanic = false := by
 
 /-- obligation on the GENERATED table: every entry prints as a character of the C08 character set -/
 theorem table_charset :
-    Gen.Chars.charLookup08.all (fun b => callsignChars.contains (Char.ofNat b)) = true := by decide
+    Gen.Chars.charLookup08.all (fun b => callsignAlphabet.contains (Char.ofNat b)) = true := by decide
 
 /-- whatever `callsign_read`'s mapping step returns only contains characters of the table -/
 theorem go_charset : ∀ (cs : List Nat) (r : List Char), Bds08.callsign.go cs = .ok r →
-    r.all (fun c => callsignChars.contains c) = true
+    r.all (fun c => callsignAlphabet.contains c) = true
   | [], r, h => by
     unfold Bds08.callsign.go at h
     cases h; rfl
@@ -28,7 +28,7 @@ theorem go_charset : ∀ (cs : List Nat) (r : List Char), Bds08.callsign.go cs =
     | none => rw [hc] at h; cases h
     | some b =>
       rw [hc] at h
-      have hb : callsignChars.contains (Char.ofNat b) = true :=
+      have hb : callsignAlphabet.contains (Char.ofNat b) = true :=
         List.all_eq_true.mp table_charset b (List.mem_of_getElem? hc)
       change (Outcome.bind (Outcome.ok b) _) = _ at h
       rw [Outcome.bind_ok] at h
@@ -44,7 +44,7 @@ theorem go_charset : ∀ (cs : List Nat) (r : List Char), Bds08.callsign.go cs =
 
 /-- `bds08::callsign_read`: no panic, and the string is over the 6-bit character set -/
 theorem callsign_wp (Q : List Char → Rd → Prop) (s : Rd)
-    (h : ∀ cs s', cs.all (fun c => callsignChars.contains c) = true → Q cs s') :
+    (h : ∀ cs s', cs.all (fun c => callsignAlphabet.contains c) = true → Q cs s') :
     wp Bds08.callsign Q s := by
   unfold Bds08.callsign
   rw [wp_bind]; apply Bds08.callsignChars_wp; intro cs s' hcs
@@ -80,8 +80,8 @@ theorem read_rangeGood : ∀ s, wp read (fun r _ => RangeGood r) s := by
   apply rangeGood_tagged
   show Json.inRangeObj [(key! "bds", Json.lit (key! "20")), (key! "callsign", Json.chars cs)] = true
   rw [inRangeObj_cons_none _ _ _ (by rfl),
-      inRangeObj_cons_some _ _ _ (.charset callsignChars) (by rfl)]
-  show (true && ((cs.all fun c => callsignChars.contains c) && true)) = true
+      inRangeObj_cons_some _ _ _ (.charset callsignAlphabet) (by rfl)]
+  show (true && ((cs.all fun c => callsignAlphabet.contains c) && true)) = true
   rw [hcs]; rfl
 
 end Rs1090.Model.Bds20
